@@ -40,6 +40,17 @@ class Obj(object):
         return len(self.data) * self.esize
 
 
+class MapObj(object):
+    """byte-addressed object with heterogeneous cells (structs in allocas / malloc'd blocks)"""
+
+    def __init__(self, name, nbytes, kind="local", zero=False):
+        self.name, self.nbytes, self.kind, self.writable = name, nbytes, kind, True
+        self.cells = {}       # byte offset -> (size, value)
+        self.zero = zero
+        self.esize = 1
+        self.reads, self.writes = set(), set()
+
+
 class Ptr(object):
     __slots__ = ("obj", "off")
 
@@ -148,6 +159,14 @@ class Interp(object):
             return REAL, a
         o = p.obj
         off = p.off
+        if isinstance(o, MapObj):
+            if off < 0 or off + size > o.nbytes:
+                msg = "%s: access of %d bytes at byte offset %d outside the %d-byte object" % (o.name, size, off, o.nbytes)
+                if self.raise_oob:
+                    raise OutOfBounds(msg)
+                self.oob.append(msg)
+                return None, None
+            return o, off
         if off < 0 or off + size > o.nbytes:
             msg = "%s: access of %d bytes at byte offset %d outside the %d-byte object" % (o.name, size, off, o.nbytes)
             if self.raise_oob:
@@ -167,6 +186,15 @@ class Interp(object):
             return ZERO if ty in ("double", "float") else 0
         if o is REAL:
             return self._real_load(i, ty)
+        if isinstance(o, MapObj):
+            c = o.cells.get(i)
+            if c is None:
+                if o.zero:
+                    return ZERO if ty in ("double", "float") else (Ptr(REAL, 0) if ty.endswith("*") and self.hybrid else (None if ty.endswith("*") else 0))
+                raise Unsupported("read of uninitialised bytes %s+%d" % (o.name, i))
+            if c[0] != size:
+                raise Unsupported("load of %d bytes from a %d-byte cell at %s+%d" % (size, c[0], o.name, i))
+            return c[1]
         o.reads.add(i)
         v = o.data[i]
         if v is None:
@@ -182,6 +210,12 @@ class Interp(object):
             raise OutOfBounds("store to library-owned memory at 0x%x" % i)
         if not o.writable:
             raise OutOfBounds("store to read-only object " + o.name)
+        if isinstance(o, MapObj):
+            # overwrite any overlapping cells
+            for k in [k for k, c in o.cells.items() if k < i + size and i < k + c[0] and k != i]:
+                del o.cells[k]
+            o.cells[i] = (size, v)
+            return
         o.writes.add(i)
         o.data[i] = v
 
@@ -411,9 +445,10 @@ class Interp(object):
             ty, n = p
             cnt = 1 if n is None else self.val(env, n[0], n[1])
             size = self.m.size_align(ty)[0]
-            # represent as cells of the scalar leaf size
-            es = 8 if size % 8 == 0 else (4 if size % 4 == 0 else 1)
-            env[dst] = Ptr(Obj("alloca" + dst, [None] * (size * cnt // es), es, "local"), 0)
+            if ty in ir.PRIM or ty.endswith("*"):
+                env[dst] = Ptr(Obj("alloca" + dst, [None] * cnt, size, "local"), 0)
+            else:
+                env[dst] = Ptr(MapObj("alloca" + dst, size * cnt, "local"), 0)
             return
         if op in ("call", "tail", "notail", "musttail"):
             rty, name, ops = p
@@ -430,11 +465,26 @@ class Interp(object):
             if dst is not None:
                 env[dst] = r
             return
+        if op == "extractvalue":
+            mm = re.match(r"extractvalue (.*) (%[\w.\-$]+), (\d+)$", p[0])
+            env[dst] = env[mm.group(2)][int(mm.group(3))]
+            return
+        if op == "insertvalue":
+            mm = re.match(r"insertvalue (\{.*?\}|%[\w.]+) (\S+), (\S+) (\S+), (\d+)$", p[0])
+            agg = mm.group(2)
+            base = list(env[agg]) if agg[0] == "%" else [None, None]
+            base[int(mm.group(5))] = self.val(env, mm.group(3), mm.group(4))
+            env[dst] = tuple(base)
+            return
         if op == "unreachable":
             raise Unsupported("reached 'unreachable' (exit() after an error message)")
         raise Unsupported("instruction " + ins.text)
 
     def fcmp(self, pred, x, y):
+        if pred == "uno":
+            return False       # exact reals are never NaN
+        if pred == "ord":
+            return True
         d = dag.sub(x, y)
         if d.op == "const":
             v = d.args[0]
@@ -511,10 +561,15 @@ class Interp(object):
             if dag.is_ground(a[0]):
                 return lift_f(math.gamma(dag.numeric(a[0])) if name == "tgamma" else math.lgamma(dag.numeric(a[0])))
             raise Unsupported(name + " of a symbolic double")
+        if name == "creal":
+            return a[0]
+        if name == "cimag":
+            return a[1]
+        if name == "__muldc3":
+            return (dag.sub(dag.mul(a[0], a[2]), dag.mul(a[1], a[3])), dag.add(dag.mul(a[0], a[3]), dag.mul(a[1], a[2])))
         if name in ("malloc", "calloc"):
             n = a[0] if name == "malloc" else a[0] * a[1]
-            cells = [ZERO] * (n // 8) if name == "calloc" else [None] * (n // 8)
-            return Ptr(Obj("heap%d" % self.steps, cells if n % 8 == 0 else [0 if name == "calloc" else None] * n, 8 if n % 8 == 0 else 1, "heap"), 0)
+            return Ptr(MapObj("heap%d" % self.steps, n, "heap", zero=(name == "calloc")), 0)
         if name == "free":
             return None
         if name in ("printf", "puts", "fprintf", "putchar"):
@@ -525,6 +580,15 @@ class Interp(object):
             p, v, n = a[0], a[1], a[2]
             if v != 0:
                 raise Unsupported("memset non-zero")
+            if isinstance(p.obj, MapObj):
+                if p.off < 0 or p.off + n > p.obj.nbytes:
+                    raise OutOfBounds("memset past the end of " + p.obj.name)
+                for k in [k for k in p.obj.cells if p.off <= k < p.off + n]:
+                    del p.obj.cells[k]
+                if not p.obj.zero:
+                    for k in range(0, n, 8):
+                        p.obj.cells[p.off + k] = (8, ZERO)
+                return None
             o, i = self._resolve(Ptr(p.obj, p.off), p.obj.esize if p.obj is not REAL else 8)
             cnt = n // o.esize
             if i + cnt > len(o.data):
@@ -535,6 +599,11 @@ class Interp(object):
             return None
         if name.startswith("llvm.memcpy") or name.startswith("llvm.memmove"):
             d, s, n = a[0], a[1], a[2]
+            if isinstance(s.obj, MapObj):
+                for k, c in sorted(s.obj.cells.items()):
+                    if s.off <= k < s.off + n:
+                        self.store(Ptr(d.obj, d.off + (k - s.off)), {8: "i64", 4: "i32", 1: "i8"}[c[0]] if not isinstance(c[1], dag.E) else "double", c[1])
+                return None
             es = 8
             for k in range(n // es):
                 v = self.load(Ptr(s.obj, s.off + k * es), "double" if True else "i64")
